@@ -9,7 +9,7 @@ from .. import vt
 
 PROP = 'C06'
 TRACE_SPEC = 'PersistTrace'
-RULE = ('stimulus = (1..3 persistent blocks from Counter / Input / Timer / InputExp / generated timed FSM '
+RULE = ('stimulus = (1..3 persistent blocks from Counter / Input / Timer / InputExp / TimeDate / TimeSpan / generated timed FSM '
         'with state data, sync_state on or off, some not persistent; history of external events on a '
         '0.25 s grid incl. rejected events, unknown event types and a failing handler; regular stop, stop '
         'after the handler error, or a failing start()) + restarts from the storage as it was after '
@@ -22,9 +22,17 @@ TICK = 0.25
 NONE = -1
 NOEXP = 9001
 ABSENT = {'st': -9, 'due': NONE, 'sd': 0}
-KINDS = ['counter', 'input', 'timer', 'inputexp', 'fsm']
+KINDS = ['counter', 'input', 'timer', 'inputexp', 'fsm', 'td', 'ts']
 EVENTS = {'counter': ['inc', 'dec', 'reset', 'put'], 'input': ['put'], 'timer': ['start', 'stop', 'toggle'],
-          'inputexp': ['put'], 'fsm': ['e1', 'e2', 'e3']}
+          'inputexp': ['put'], 'fsm': ['e1', 'e2', 'e3'], 'td': ['reconfig'], 'ts': ['reconfig']}
+# configurations of the TimeDate / TimeSpan blocks: the internal state is the configuration; they are
+# chosen so that the corresponding output does not depend on the time of the (re)start
+TD_MENU = [dict(weekdays='1234567'), dict(weekdays=''), dict(dates='Jan 1 - Dec 31'), dict(times='0:00-0:00'),
+           dict(), dict(times='0:00-0:00', weekdays='')]
+TD_OUT = [1, 0, 1, 1, 0, 0]
+TS_MENU = [(), 'Jan 1 2000 0:00 - Dec 31 2099 0:00', 'Jan 1 2000 0:00 - Jan 2 2000 0:00',
+           'Jan 1 2000 0:00 - Jan 2 2000 0:00, Jan 1 2001 0:00 - Dec 31 2099 0:00']
+TS_OUT = [0, 1, 0, 1]
 
 
 def models(tier, seed):
@@ -76,6 +84,10 @@ def _mk(edzed, kind, name, probe, **kw):
         return edzed.Timer(name, t_on=3 * TICK, t_off=5 * TICK, **kw)
     if kind == 'inputexp':
         return edzed.InputExp(name, duration=4 * TICK, expired=99, initdef=3, **kw)
+    if kind == 'td':
+        return edzed.TimeDate(name, **TD_MENU[0], **kw)
+    if kind == 'ts':
+        return edzed.TimeSpan(name, span=TS_MENU[0], **kw)
 
     class GenFSM(edzed.FSM):
         STATES = ['s1', 's2', 's3']
@@ -96,8 +108,14 @@ def _mk(edzed, kind, name, probe, **kw):
     return GenFSM(name, **kw)
 
 
+def _menu_state(edzed, kind):
+    if kind == 'td':
+        return [edzed.TimeDate.parse(c.get('times'), c.get('dates'), c.get('weekdays')) for c in TD_MENU]
+    return [edzed.TimeSpan.parse(c) for c in TS_MENU]
+
+
 def _outcode(out, kind):
-    if kind == 'timer':
+    if kind in ('timer', 'td', 'ts'):
         return {True: 1, False: 0}.get(out, -8) if isinstance(out, bool) else -8
     if kind == 'fsm':
         return {'s1': 1, 's2': 2, 's3': 3}.get(out, -8)
@@ -109,10 +127,15 @@ def _snap(edzed, blk, kind, wall0):
         st = blk.get_state()
     except Exception:
         return dict(ABSENT)
-    return _enc(st, kind, wall0)
+    return _enc(st, kind, wall0, edzed)
 
 
-def _enc(st, kind, wall0):
+def _enc(st, kind, wall0, edzed=None):
+    if kind in ('td', 'ts'):
+        if edzed is None:
+            import edzed
+        menu = _menu_state(edzed, kind)
+        return {'st': menu.index(st) + 1 if st in menu else -8, 'due': NONE, 'sd': 0}
     if kind in ('counter', 'input'):
         return {'st': st if isinstance(st, int) and not isinstance(st, bool) else -8, 'due': NONE, 'sd': 0}
     state, exp, sdata = st
@@ -159,7 +182,7 @@ def execute(stim):
         return round(x)
 
     PRE = {'counter': 5, 'input': 4, 'timer': ('off', None, {}), 'inputexp': ('expired', None, {}),
-           'fsm': ('s1', None, {'n': 1})}
+           'fsm': ('s1', None, {'n': 1}), 'td': _menu_state(edzed, 'td')[2], 'ts': _menu_state(edzed, 'ts')[1]}
 
     def factory(loop, clock):
         async def main():
@@ -182,7 +205,8 @@ def execute(stim):
             outs = lambda: [repr(b.output) for b in blks]
 
             def rec(ev, **kw):
-                lines.append(dict(ev=ev, t=wtick(clock), store=_store(storage, blks, kinds, WALL0), **kw))
+                lines.append(dict(ev=ev, t=wtick(clock), store=_store(storage, blks, kinds, WALL0),
+                                  outc=[_outcode(b.output, k) for b, k in zip(blks, kinds)], **kw))
                 snaps.append((copy.deepcopy(storage), wtick(clock), outs()))
             orig_event = edzed.SBlock.event
             flag = {'driver': False, 'depth': 0}
@@ -251,6 +275,12 @@ def execute(stim):
                     try:
                         if op['e'] == 'boom':
                             edzed.ExtEvent(blk, 'e5').send(boom=1)
+                        elif op['e'] == 'reconfig':
+                            k = kinds[op['b'] - 1]
+                            if k == 'td':
+                                edzed.ExtEvent(blk, 'reconfig').send(**TD_MENU[op['v'] % len(TD_MENU)])
+                            else:
+                                edzed.ExtEvent(blk, 'reconfig').send(span=TS_MENU[op['v'] % len(TS_MENU)])
                         elif op['e'] == 'put':
                             edzed.ExtEvent(blk, 'put').send(op['v'])
                         else:
